@@ -33,6 +33,8 @@ def emit(sc):
         lines.append("tape " + ",".join(str(d) for d in sc["tape"]))
     if sc.get("emit_tape"):
         lines.append("emit_tape")
+    if sc.get("instr"):
+        lines.append("instr %d" % sc["instr"])
     if sc.get("maxsteps"):
         lines.append("maxsteps %d" % sc["maxsteps"])
     return "\n".join(lines) + "\n"
@@ -368,12 +370,20 @@ def check_realtime(h):
     reqs = timer_requests(h)
     stats["timer_requests"] = len(reqs)
     # drain cut-off: only runs that keep re-scheduling every MIN_TD for >= 1024 cycles past end_time may be cut short
+    # instrumented build: scheduler steps (and clock advance) may fall between the node's log line and the engine's own
+    # reading of the wall clock, so the logical time of a wall-clock alarm is known only approximately there
+    fuzzy = {r["id"] for r in reqs if r["alarm"]} if sc.get("instr") else set()
     for r in reqs:
         T = r["when"]
         if T is None:
             continue
         if r["alarm"] and T <= max(r["t"], r["wall"]) + (0 if r["in_start"] else 0):
             stats["probe_alarm_already_due"] += 1
+        if r["id"] in fuzzy and r["alarm"]:
+            if stop_inv is None and T < sc["end"] - 200 and not any(T <= x <= T + 200 for x in evs.get(r["id"], {})):
+                return ("wakeup_dropped", "timer %d asked for a wall-clock alarm near %d; no evaluation within 200 us of it (evaluations: %s)" % (
+                    r["id"], T, sorted(evs.get(r["id"], {}))[:12])), stats
+            continue
         if T < sc["start"] or T >= sc["end"]:
             continue
         got = evs.get(r["id"], {}).get(T)
@@ -388,6 +398,8 @@ def check_realtime(h):
             stats["probe_late_delivery"] += 1
     # every evaluation of a timer node is explained by a request for exactly that time
     for tid, m in evs.items():
+        if tid in fuzzy:
+            continue
         asked = {r["when"] for r in reqs if r["id"] == tid and r["when"] is not None}
         for T in m:
             if T not in asked:
